@@ -200,27 +200,50 @@ def _pool_entry(arg):
 
 
 def pool_map(fn, args, nproc=None):
-    """Run fn over args in a fork pool (sketchnu already imported and compiled in the
-    parent, so children pay nothing).  fn must return a picklable value."""
+    """Run fn over args in a fork pool (sketchnu already imported and compiled in the parent, so children pay
+    nothing).  fn must return a picklable value.  A child that dies (segfault / abort inside a jitted kernel) does
+    not hang the check: the tasks lost with it are re-run one by one in isolated children, and a task that kills
+    its child again is reported as a violation (the library crashed the process on generated input)."""
+    import concurrent.futures as cf
     import multiprocessing as mp
+    from concurrent.futures.process import BrokenProcessPool
 
     global _POOL_FN
     args = list(args)
     nproc = min(nproc or NPROC, max(1, len(args)))
     _POOL_FN = fn
-    if nproc == 1:
-        res = [_pool_entry(a) for a in args]
-    else:
-        ctx = mp.get_context("fork")
-        gc.collect()
-        with ctx.Pool(nproc) as pool:
-            res = pool.map(_pool_entry, args, chunksize=1)
+    ctx = mp.get_context("fork")
+    gc.collect()
+    res = [None] * len(args)
+    lost = []
+    with cf.ProcessPoolExecutor(nproc, mp_context=ctx) as ex:
+        futs = {ex.submit(_pool_entry, a): i for i, a in enumerate(args)}
+        for f in cf.as_completed(futs):
+            i = futs[f]
+            try:
+                res[i] = f.result()
+            except BrokenProcessPool:
+                lost.append(i)
+    for i in sorted(lost):
+        with cf.ProcessPoolExecutor(1, mp_context=ctx) as ex:
+            try:
+                res[i] = ex.submit(_pool_entry, args[i]).result()
+            except BrokenProcessPool:
+                r = Recorder()
+                r.violation({"pool_task": jsonable(args[i]), "note": "re-run the check to reproduce"},
+                            f"the library crashed the worker process (killed by a signal) while running task {_short_repr(args[i])}", "process-crash")
+                res[i] = ("ok", r)
     out = []
     for tag, val in res:
         if tag == "err":
             raise HarnessError("pool shard failed:\n" + val)
         out.append(val)
     return out
+
+
+def _short_repr(x):
+    s = repr(x)
+    return s if len(s) < 300 else s[:300] + "..."
 
 
 def pool_merge(fn, args, rec, nproc=None):
